@@ -131,6 +131,16 @@ pub mod a3 {
                 let poly = ConvexPolyhedron::from_convex_hull(&pts).expect("convex hull");
                 let mesh = poly.to_trimesh();
                 format!("{} {}", super::super::ext::e3::foutline(&RoundShape { inner_shape: poly, border_radius: br }.to_outline(n)), super::super::ext::e3::fmesh(&mesh)) }
+            // the index buffer after TriMesh::scaled (model: kept, reversed for an ORIENTED mesh under a mirroring scale)
+            "trimesh_scaled_idx" => {
+                let nv = a.u(); let vs: Vec<P3> = (0..nv).map(|_| d3::p(a)).collect();
+                let nt = a.u(); let ts: Vec<[u32; 3]> = (0..nt).map(|_| [a.u() as u32, a.u() as u32, a.u() as u32]).collect();
+                let fl = TriMeshFlags::from_bits_truncate(a.u() as u16);
+                let sc = d3::v(a);
+                let m = TriMesh::with_flags(vs, ts, fl).expect("trimesh").scaled(&sc);
+                let mut s = format!("{}", m.indices().len());
+                for t in m.indices() { s.push_str(&format!(" {} {} {}", t[0], t[1], t[2])); }
+                s }
             "aabb_scaled3" => { let lo = d3::p(a); let hi = d3::p(a); let sc = d3::v(a); fbox(&Aabb::new(lo, hi).scaled(&sc)) }
             _ => return None,
         })
@@ -406,6 +416,8 @@ pub mod g {
                 let br = if lat { *r.pick(&[0.25, 0.5, 1.0]) } else { r.logu(0.05, 2.0) };
                 v.push(("rpolyh_outline".into(), format!("{} {} {}", super::super::ext::g::hull_pts3(r, lat), hx(br), 2 + r.below(5))));
             }
+            { let (vs, ts) = closed_mesh(r, lat); let fl = *r.pick(&[8u32, 8, 9, 0]);
+              v.push(("trimesh_scaled_idx".into(), format!("{} {} {}", fmesh(&vs, &ts), fl, d3::hv(&sc)))); }
             // Aabb::scaled alone, every sign pattern (proper boxes, incl. flat ones)
             let lo = d3::gen_v(r, lat, 4.0); let e = V3::new(r.coord(lat, 2.0).abs(), r.coord(lat, 2.0).abs(), if it % 7 == 0 { 0.0 } else { r.coord(lat, 2.0).abs() });
             v.push(("aabb_scaled3".into(), format!("{} {} {}", d3::hv(&lo), d3::hv(&(lo + e)), d3::hv(&sc))));
